@@ -326,6 +326,14 @@ def make_uxda(ex, name, env, dims=None, **kw):
             shape.append(sizes[d])
         o.fields["values"] = Arr.fresh(name + ".values", shape, "real")
         o.fields["sizes"] = sizes
+        W = z3.Int(fresh_name("n_max_face_nodes"))
+        ex.assume(W >= 1)
+        g.fields["n_max_face_nodes"] = W
+        g.fields["edge_node_connectivity"] = make_dataarray(ex, "enc", Arr.fresh("edge_node_connectivity", [sizes["n_edge"], 2], "int",
+                                                            ghost={"space": "edge", "vspace": "node"}))
+        g.fields["face_node_connectivity"] = make_dataarray(ex, "fnc", Arr.fresh("face_node_connectivity", [sizes["n_face"], W], "int",
+                                                            ghost={"space": "face", "vspace": "node"}))
+        g.fields["n_nodes_per_face"] = make_dataarray(ex, "npf", Arr.fresh("n_nodes_per_face", [sizes["n_face"]], "int"))
     else:
         o.fields["values"] = Opaque(name=name + ".values")
     o.fields["name"] = Opaque(name=name + ".name")
@@ -389,3 +397,47 @@ def np_einsum(ex, args, kwargs, node):
         raise Unsupported("einsum other than 'i,...i'")
     trusted(ex, "numpy.einsum('i,...i', w, v) = sum over the LAST axis of v weighted by w")
     return as_opt(_uf("wsum_last_axis", 2)(uterm(args[1]), uterm(args[2])), "einsum")
+
+
+# ---------------------------------------------------------------------------------------------
+# abstract reduction along the last axis (C17): agg(values of the sequence, its length)
+# ---------------------------------------------------------------------------------------------
+F_AGG = z3.Function("agg_last_axis", z3.ArraySort(V.INT, V.REAL), V.INT, V.REAL)
+
+
+class AggFn:
+    """an arbitrary numpy reduction passed as a callable: f(x, axis=-1) reduces the last axis; the result at a position depends
+    only on the sequence of values along that axis (and its length)"""
+
+
+@factory("AggFn")
+def make_aggfn(ex, name, env, **kw):
+    return AggFn()
+
+
+def call_aggfn(ex, fn, args, kwargs, node):
+    trusted(ex, "aggregation_func(x, axis=-1): a function of the value sequence along the last axis only (numpy reductions)")
+    x = args[0]
+    if kwargs.get("axis") != -1 or not isinstance(x, Arr) or x.rank < 2:
+        raise Unsupported("aggregation over something else than the last axis of an array")
+    n = x.shape[-1]
+    lead = x.shape[:-1]
+    t = z3.Int(fresh_name("t"))
+
+    def cell(*idx):
+        return F_AGG(z3.Lambda([t], to_z3(x.sel(*idx, t), "real")), to_z3(n, "int"))
+    r = Arr.from_lambda(lead, "real", cell)
+    r.ghost["owner"] = "fresh"
+    return r
+
+
+@spec("agg")
+def sp_agg(ex, args, kwargs, node):
+    """agg(lambda t: value, n): the abstract reduction of the sequence value(0..n-1)"""
+    lam, n = args
+    t = z3.Int(fresh_name("t"))
+    from .symexec import _SpecFrame
+    e2 = dict(lam.env)
+    e2[lam.node.args.args[0].arg] = t
+    body = ex.eval(lam.node.body, e2, _SpecFrame(ex))
+    return F_AGG(z3.Lambda([t], to_z3(body, "real")), to_z3(n, "int"))
